@@ -15,7 +15,8 @@ EXTENDS RatLin, FiniteSets, TLC
 VARIABLES cls, par, facts
 vars == <<cls, par, facts>>
 
-PLat == {R(1, 4), Half, R(3, 4)}
+CONSTANT Deep      \* thorough tier: more probabilities, shapes, sizes
+PLat == IF Deep THEN {R(1, 8), R(1, 4), Half, R(3, 4), R(7, 8)} ELSE {R(1, 4), Half, R(3, 4)}
 \* all 0/1 vectors of length n
 Bits(n) == [1..n -> {0, 1}]
 BernoulliMass(p, x) == RProd([i \in 1..Len(p) |-> IF x[i] = 1 THEN p[i] ELSE Sub(One, p[i])])
@@ -31,15 +32,15 @@ ProdShapeR(s) == IF s = <<>> THEN 1 ELSE Head(s) * ProdShapeR(Tail(s))
 MG1A == IntMat(<< <<1, -1, 0>>, <<0, 1, 0>>, <<0, 0, 1>> >>)
 MG1Ainv == IntMat(<< <<1, 1, 0>>, <<0, 1, 0>>, <<0, 0, 1>> >>)
 
-EventShapes == {<<1>>, <<2>>, <<3>>, <<2, 2>>, <<2, 3>>}
+EventShapes == {<<1>>, <<2>>, <<3>>, <<2, 2>>, <<2, 3>>} \cup (IF Deep THEN {<<4>>, <<1, 1>>, <<3, 2>>, <<2, 2, 2>>, <<1, 2, 1>>} ELSE {})
 
 Cases ==
-       {[c |-> "Bernoulli", p |-> p] : p \in UNION {[1..n -> PLat] : n \in 1..3}}
-  \cup {[c |-> "Gaussian", shape |-> s, conditional |-> b, rows |-> r] : s \in EventShapes, b \in BOOLEAN, r \in 1..2}
+       {[c |-> "Bernoulli", p |-> p] : p \in UNION {[1..n -> PLat] : n \in 1..(IF Deep THEN 4 ELSE 3)}}
+  \cup {[c |-> "Gaussian", shape |-> s, conditional |-> b, rows |-> r] : s \in EventShapes, b \in BOOLEAN, r \in 1..(IF Deep THEN 3 ELSE 2)}
   \cup {[c |-> "MG1"]}
   \cup {[c |-> "Mixture", w |-> w] : w \in {<<1>>, <<1, 1>>, <<1, 3>>, <<2, 1, 1>>}}
-  \cup {[c |-> "KDE", n |-> n, d |-> d] : n \in {1, 2, 5}, d \in 1..2}
-  \cup {[c |-> "MoG", d |-> d, k |-> k, rows |-> r] : d \in 1..2, k \in 1..3, r \in 0..2}
+  \cup {[c |-> "KDE", n |-> n, d |-> d] : n \in (IF Deep THEN {1, 2, 3, 5, 9} ELSE {1, 2, 5}), d \in 1..2}
+  \cup {[c |-> "MoG", d |-> d, k |-> k, rows |-> r] : d \in 1..2, k \in 1..3, r \in 0..(IF Deep THEN 3 ELSE 2)}
   \cup {[c |-> "Box"], [c |-> "LotkaVolterra"]}
 
 FactsOf(x) ==
